@@ -79,11 +79,15 @@ def reference_accepts(model, root, ginc):
 ODD_CTX = ("straddle", "region-in-nonpublic", "label-in-cregion")
 
 
-def odd_ctx(ents, n):
+# the two contexts in which the listed region findings give members an access that differs from C++'s
+DISTORT_CTX = ("straddle", "region-in-nonpublic")
+
+
+def odd_ctx(ents, n, which=ODD_CTX):
     """the odd-interleaving context an entity sits in: its own or that of an enclosing class"""
     e = ents.get(n)
     while e:
-        if (e.get("ctx") or "") in ODD_CTX:
+        if (e.get("ctx") or "") in which:
             return e["ctx"]
         if e["kind"] == "enumval" and e.get("of"):
             e = ents.get(e["of"])
@@ -308,7 +312,13 @@ def judge(model, mode, backend, occ, ents=None):
     for n, e in ents.items():
         s = st[n]
         places = occ.get(n, set())
-        k, tag, cx = e["kind"], e["tag"], (odd_ctx(model["ents"], n) or e.get("ctx") or "")
+        k, tag = e["kind"], e["tag"]
+        # context for the key: a distorting region context of the entity itself, else of a type its signature names
+        dcx = odd_ctx(model["ents"], n, DISTORT_CTX)
+        if not dcx:
+            for r in e["refs"]:
+                dcx = dcx or odd_ctx(model["ents"], r, DISTORT_CTX)
+        cx = dcx or e.get("ctx") or ""
         sig = f"{tag},{k}" + (f",{cx}" if cx else "")
         cnt[f"judged_tag_{tag}"] = cnt.get(f"judged_tag_{tag}", 0) + 1
         if s == "unspec":
@@ -332,8 +342,8 @@ def judge(model, mode, backend, occ, ents=None):
                 if not pl:
                     continue
             place = [p for p in PLACE_PRIORITY if p in pl][0]
-            key = f"leak:{tag},any,any,{cx}" if cx in ODD_CTX or cx == "kwmacro" else \
-                f"leak:{tag},{k},{place}" + (f",{cx}" if cx else "")
+            key = f"leak:any,any,any,{cx}" if cx in DISTORT_CTX else f"leak:{tag},any,any,{cx}" if cx == "kwmacro" \
+                else f"leak:{tag},{k},{place}" + (f",{cx}" if cx else "")
             viol.append((key,
                          dict(entity=n, mode=mode, backend=backend, places=sorted(places), facts=_facts(e))))
         else:
@@ -343,7 +353,7 @@ def judge(model, mode, backend, occ, ents=None):
             if ok:
                 feats.add(f"present:{sig}:{mode}")
             else:
-                key = f"missing:{tag},any,{cx}" if cx in ODD_CTX else f"missing:{tag},{k}" + (f",{cx}" if cx else "")
+                key = f"missing:any,any,{cx}" if cx in DISTORT_CTX else f"missing:{tag},{k}" + (f",{cx}" if cx else "")
                 viol.append((key, dict(entity=n, mode=mode, backend=backend, places=sorted(places), facts=_facts(e))))
                 continue
             if e.get("simple") and k in ("func", "method", "smethod") and backend in ("c", "pn"):
@@ -420,7 +430,7 @@ def minimise(b, model, root, mode, backend, key, entity):
         finally:
             shutil.rmtree(mroot, ignore_errors=True)
 
-    kept = core.ddmin(items, fails, max_tests=60) if items else []
+    kept = core.ddmin(items, fails, max_tests=40) if items else []
     for it in list(kept):          # ddmin never tries the empty complement
         trial = [x for x in kept if x != it]
         if len(kept) <= 6 and fails(trial):
@@ -452,6 +462,22 @@ def minimise(b, model, root, mode, backend, key, entity):
         fr2.pop("_remap", None)
     red["ents"] = ents
     return files, red
+
+
+def _min_budget(ctx, key, per_key=2, total=16):
+    """minimisation is only worth it for the first few witnesses of a key in one run (shared across workers
+    through marker files in the run's scratch directory)"""
+    d = os.path.join(ctx.work, "minimised")
+    os.makedirs(d, exist_ok=True)
+    have = os.listdir(d)
+    slug = re.sub(r"[^A-Za-z0-9]+", "_", key)
+    if len(have) >= total or sum(1 for h in have if h.startswith(slug + ".")) >= per_key:
+        return False
+    try:
+        open(os.path.join(d, f"{slug}.{os.getpid()}.{len(have)}"), "x").close()
+    except OSError:
+        return False
+    return True
 
 
 def run_case(ctx, case):
@@ -493,7 +519,7 @@ def run_case(ctx, case):
             if key in seen:
                 continue
             seen.add(key)
-            if len(seen) <= 3 and not case.get("model") and not case.get("nomin"):
+            if len(seen) <= 2 and not case.get("model") and not case.get("nomin") and _min_budget(ctx, key):
                 files, red = minimise(b, model, root, mode, backend, key, det["entity"])
                 det["witness_files"] = files
                 det["witness_nfiles"] = model["nfiles"]
